@@ -6,14 +6,16 @@ From V.model Require Import Shutdown.
 Section Proofs.
 Variable cap : Z.
 Variable ucfg : bool.
+Variable daf : bool.
 
-Notation step := (Shutdown.step cap ucfg).
-Notation apply := (Shutdown.apply cap ucfg).
-Notation run_from := (Shutdown.run_from cap ucfg).
-Notation run := (Shutdown.run cap ucfg).
-Notation prompt_from := (Shutdown.prompt_from cap ucfg).
-Notation prompt := (Shutdown.prompt cap ucfg).
-Notation step_thread := (Shutdown.step_thread cap).
+Notation step := (Shutdown.step cap ucfg daf).
+Notation apply := (Shutdown.apply cap ucfg daf).
+Notation run_from := (Shutdown.run_from cap ucfg daf).
+Notation run := (Shutdown.run cap ucfg daf).
+Notation prompt_from := (Shutdown.prompt_from cap ucfg daf).
+Notation prompt := (Shutdown.prompt cap ucfg daf).
+Notation step_thread := (Shutdown.step_thread cap daf).
+Notation work_step := (Shutdown.work_step daf).
 Notation step_run := (Shutdown.step_run ucfg).
 Notation connect := (Shutdown.connect ucfg).
 
@@ -335,7 +337,7 @@ Qed.
 
 Lemma inv_work_step w t p f k w' : Inv w -> thread w t = TLive p f -> work_step w t f k = Some w' -> Inv w'.
 Proof.
-  intros H Et E. unfold work_step in E.
+  intros H Et E. unfold Shutdown.work_step in E.
   assert (Hprod : forall w'', match k, f with
       | KFail, _ => Some (fail_exit w t)
       | KCall, S f' => Some (set_thread (callback w t) t (TLive PWork f'))
@@ -358,9 +360,11 @@ Proof.
   destruct t; try (apply Hprod; exact E).
   - (* SO *) injection E as <-. destruct k; (eapply inv_set_live; [first [apply inv_restart, H|exact H]|thr]).
   - (* PU *)
-    destruct k; injection E as <-;
+    destruct k; destruct (d_pufail (w_dat w)); try destruct daf; injection E as <-;
       first [ eapply inv_exit; [apply inv_set_pufail, inv_request_stop, H|thr|discriminate]
-            | eapply inv_set_live; [eapply inv_callback; eassumption|thr] ].
+            | eapply inv_set_live; [apply inv_set_pufail, inv_request_stop, H|thr]
+            | eapply inv_set_live; [eapply inv_callback; eassumption|thr]
+            | eapply inv_set_live; eassumption ].
 Qed.
 
 Lemma inv_consume w t c p f w' : Inv w -> thread w t = TLive p f -> t <> MU -> consume w t c = Some w' -> Inv w'.
